@@ -183,6 +183,12 @@ def run_rules(ctx, res):
         res.inst(BOX, "renderer|%s|all-skipped-collapse" % shape, where, True, str(bool(collapse)))
         if not collapse:
             res.violate(BOX, "renderer|%s|all-skipped-collapse" % shape, where, "a fieldset whose fields are all `_` must collapse to the empty (unit-like) form: the renderer must start with `if !fieldset.has_used_field() { return <empty renderer> }`")
+        # no other way out of the renderer than the collapse above and the field list below
+        rets = nodes(fn["body"], "Return")
+        extra = [r_ for r_ in rets if not (collapse and first is not None and any(r_ is x for x in nodes(first["expr"]["then"], "Return")))]
+        res.inst(BOX, "renderer|%s|single-exit" % shape, where, True, "%d early returns besides the all-skipped collapse" % len(extra))
+        for r_ in extra[:1]:
+            res.violate(BOX, "renderer|%s|extra-return" % shape, "%s:%d" % (efile, r_["line"]), "the %s fieldset renderer returns early with `%s`: some fieldsets are printed by other code than the per-field arms (Box / payload-type / omission rules no longer cover them)" % (shape.lower(), unparse(r_["expr"])[:100]))
         # the filter_map closure over fieldset.fields.iter()
         fms = [m for m in nodes(fn["body"], "MethodCall") if m["method"] == "filter_map"]
         if len(fms) != 1:
@@ -340,6 +346,23 @@ def run_rules(ctx, res):
     res.floor("iterator chains in the type-definition printers", n_ch, 4)
     nfl = check_flatteners(syn, res, ORD)
     res.floor("CST list conversions checked", nfl, 6)
+    # ---- declarations reach the emitter as written (which fields are `_`, which kind a symbol has): MIR, shared with C02
+    from ..mir import Mir
+    from .. import declcopy
+    SKIP = "R-C06-asdeclared"
+    res.rule(SKIP, "declarations reach the emitter as written: the CST->AST stage rebuilds every value from the same-named field / variant of its source unconditionally; the usedness predicates (which decide the unit-like collapse) look at the variant only; validation hands on each declaration as a plain, never mutated copy")
+    mir_ = Mir(ctx["facts"]["mir"])
+    declcopy.run(mir_, res, SKIP)
+    # the avoid set behind the fresh generic parameter is complete (shared with C05)
+    from .c05 import analyse_ctor, check_fresh_machinery
+    from ..report import Result as _R2
+    tmpf = _R2("C05", "quick", "other")
+    nm_ = analyse_ctor(syn, efile, tmpf, "R-C05-fresh")
+    if nm_.ctor_fn is not None:
+        check_fresh_machinery(ctx, nm_, tmpf, "R-C05-fresh")
+    res.inst(SIG, "fresh-name-machinery", "", True, "%d violations of the fresh-name machinery (avoid set holds all user name sources; every fresh name is re-inserted)" % len(tmpf.violations))
+    for v in tmpf.violations:
+        res.violate(SIG, "fresh|" + v.key, v.where, "the generic parameter of `parse` is only fresh if the fresh-name machinery is sound: " + v.msg)
 
 
 def check(ctx):
